@@ -167,21 +167,33 @@ Proof. exact write_failure_after_failed_flush. Qed.
 Print Assumptions C13_write_failure_surfaces_partial_buffered.
 
 (* ---------- single_writer ---------- *)
-(* full statement: goawk never uses Output while the goroutine that os/exec
-   runs for a live print | cmd child can use it too *)
+(* full statement: goawk never uses Output while a live print | cmd child that
+   has been given something to write to the shared stdout -- so that the
+   goroutine os/exec runs for it may be inside Output.Write -- is not waited for *)
 Definition C13_single_writer_full : Prop :=
   forall (E : env) (fs : list (name * bytes)) (limit : option nat) (ops : list op),
   st_overlap (fst (run E (init_state fs limit) ops)) = false.
 
-(* FALSE whenever Output is not an *os.File (F-C13-2, F-C13-3):
-   print "x" | "cmd"; print "h" *)
+Definition cat_env (m : omode) : env :=
+  {| e_spec := fun _ => {| c_sink := None; c_append := []; c_stdout := []; c_echo := true; c_drain := true; c_closes := false; c_exit := Exited 0 |};
+     e_bad := fun _ => false; e_mode := m; e_fcap := 64 |}.
+
+(* FALSE whenever Output is not an *os.File (F-C13-2):
+   print "x" | "cat"; fflush("cat"); print "h" *)
 Theorem C13_single_writer_refuted : ~ C13_single_writer_full.
 Proof.
   intros H.
-  pose proof (H (env_of Unbuf) [] None [Print (DRedir RPipe 10) [[120]]; Print DStdout [[104]]]) as X.
+  pose proof (H (cat_env Unbuf) [] None [Print (DRedir RPipe 14) [[120]]; Fflush (Some 14); Print DStdout [[104]]]) as X.
   vm_compute in X. discriminate.
 Qed.
 Print Assumptions C13_single_writer_refuted.
+
+(* a child that writes nothing to the shared stdout (since fix c445299, childWriter) never makes
+   that goroutine touch Output: print "x" | "cmd"; print "h" is no longer a witness *)
+Example C13_silent_child_no_overlap : forall m, In m [OsFile; Unbuf; Buf 16] ->
+  let s := fst (run (env_of m) (init_state [] None) [Print (DRedir RPipe 10) [[120]]; Print DStdout [[104]]]) in
+  st_overlap s = false /\ st_unmod s = false /\ sk_data (st_sink s) = [104].
+Proof. intros m [<- | [<- | [<- | []]]]; vm_compute; auto. Qed.
 
 (* TRUE when Output is an *os.File (children then write to the descriptor themselves) *)
 Theorem C13_single_writer_partial :
